@@ -83,6 +83,8 @@ def run(ctx):
             ctx.finding("C10.F1", fn, "format-read", "crate-local function(s) %s run under only one serialization format" % bad, line=line)
     sibling(ctx, fx, ps, vreach)
     f3(ctx, fx)
+    f4(ctx, fx)
+    input_verbatim(ctx, fx, ps, "C10.F2")
 
 
 _FF = {}
@@ -450,6 +452,115 @@ def fmt_args_in_order(v):
             if arr.kind == "agg" and arr.d["agg"].get("kind") == "array":
                 return [k.kids[0] if (k.kind == "call" and k.kids) else k for k in arr.kids]
     return []
+
+
+def f4(ctx, fx, rule="C10.F4"):
+    """The JSON envelope this library writes is an envelope it reads: every member the (derived or hand-written) Serialize impl of SDJWTJson
+    can leave out — a `serialize_field` that is not on every path to `end` (skip_serializing_if) — must be optional for the Deserialize impl:
+    no `missing_field::<T>(name)` with a non-Option T (serde fills a missing Option with None; `#[serde(default)]` removes the call). And the
+    member names written are the names read."""
+    import re as _re
+    ser = [f for n, f in fx.fns.items() if _re.search(r"Serialize(<.*>)? for SDJWTJson>::serialize$", n) or _re.search(r"^<SDJWTJson as .*Serialize>::serialize$", n)]
+    vis = [f for n, f in fx.fns.items() if "Deserialize" in n and "SDJWTJson" in n and n.endswith("::visit_map")]
+    if len(ser) != 1 or len(vis) != 1:
+        ctx.missing(rule, "envelope serde impls", "expected one Serialize::serialize and one Deserialize visit_map for SDJWTJson, found %d / %d" % (len(ser), len(vis)))
+        return
+    S, D = ser[0], vis[0]
+    sv, dv = vals(S), vals(D)
+    ends = [b for b, t in S.calls() if t.get("name") == "end"]
+    written = {}
+    for b, t in S.calls():
+        if t.get("name") in ("serialize_field", "serialize_entry") and len(sv.call_node(b).kids) >= 2:
+            nm = const_value(sv.call_node(b).kids[1])
+            if isinstance(nm, str):
+                written.setdefault(nm, []).append(b)
+    required = {}
+    read = set()
+    for b, t in D.calls():
+        n = dv.call_node(b)
+        if t.get("name") == "missing_field" and n.kids and isinstance(const_value(n.kids[0]), str):
+            required[const_value(n.kids[0])] = ((t.get("gargs") or ["?"])[0] or "?")
+            read.add(const_value(n.kids[0]))
+        elif t.get("name") == "duplicate_field" and n.kids and isinstance(const_value(n.kids[0]), str):
+            read.add(const_value(n.kids[0]))
+    ctx.floor(rule, "members of the JSON envelope written by Serialize", len(written), 4)
+    if not ends or not written:
+        ctx.missing(rule, "envelope serializer shape", "no serialize_field .. end sequence in %s" % S.name)
+        return
+    for nm, bbs in sorted(written.items()):
+        always = not any(e in cfg.reachable(S, [0], removed_blocks=bbs) for e in ends)
+        ty = required.get(nm)
+        if always:
+            ctx.ok(rule, S, "envelope-member:%s" % nm, "`%s` is written on every path" % nm, line=S.term(bbs[0]).get("line"))
+        elif ty is None or ty.startswith("std::option::Option<"):
+            ctx.ok(rule, S, "envelope-member:%s" % nm, "`%s` may be left out when serialising, and the reader treats its absence as %s" % (nm, "None" if ty else "the default"), line=S.term(bbs[0]).get("line"))
+        else:
+            ctx.finding(rule, S, "envelope-member:%s" % nm, "`%s` is left out of the JSON form under some condition (skip_serializing_if), but the reader requires it (missing_field::<%s>): "
+                        "a JSON-serialized SD-JWT / presentation this library produces (e.g. with no disclosures) is rejected by its own parser, while the Compact form of the same data is accepted"
+                        % (nm, ty), line=S.term(bbs[0]).get("line"))
+    if read and set(written) != read:
+        ctx.finding(rule, S, "envelope-names", "the member names written %s differ from the names read %s" % (sorted(written), sorted(read)))
+    elif read:
+        ctx.ok(rule, S, "envelope-names", "the member names written are the names read: %s" % sorted(read))
+
+
+STR_IDENTITY = ("clone", "to_owned", "to_string", "as_str", "deref", "as_ref", "borrow", "into", "from", "as_mut_str", "deref_mut", "to_str", "as_bytes", "into_bytes", "into_boxed_str")
+
+
+def input_verbatim(ctx, fx, ps, rule):
+    """Both serializations are parsed from the string the caller presented: on every call path from a public entry to a parser, the string
+    handed on is the function's own string parameter through identity conversions only. A normalisation in front of the parsers (trim,
+    replace, case folding ..) changes what one format accepts and not the other: the outer characters of the Compact form are the first
+    byte of the issuer-signed JWT and the last byte of the KB-JWT, those of the JSON form are insignificant whitespace."""
+    def str_params(F):
+        return [i for i in range(1, F.arg_count + 1) if (F.local_ty(i) or "").lstrip("&").replace("mut ", "") in ("str", "std::string::String")]
+    targets = {}
+    for P in ps:
+        sp = str_params(P)
+        if len(sp) == 1:
+            targets[P.name] = sp[0]
+    if not targets:
+        ctx.missing(rule, "parser input", "the parsers take no single string parameter")
+        return
+    nhop = 0
+    work, seen = list(targets), set()
+    while work:
+        tn = work.pop()
+        if tn in seen:
+            continue
+        seen.add(tn)
+        pos = targets[tn]
+        for name, raw in sorted(fx.fns.items()):
+            if raw.kind == "closure" or raw.is_macro_generated() or fx.dissolved(name) or name == tn:
+                continue
+            F = fx.view(name)
+            fv = vals(F)
+            for b, t in F.calls():
+                if t.get("resolved") != tn:
+                    continue
+                n = fv.call_node(b)
+                if pos - 1 >= len(n.kids):
+                    continue
+                nhop += 1
+                arg = n.kids[pos - 1]
+                sp = str_params(F)
+                roots = common.param_roots(arg) & set(sp)
+                other = [x for x in walk(arg) if x.kind == "call" and x.d["term"].get("name") not in STR_IDENTITY]
+                muts = [x for x in walk(arg) if x.kind == "mut" and len(x.kids) == 2 and x.kids[1].kind == "call"]
+                what = "input-verbatim:%s->%s" % (name.split("::")[-1], tn.split("::")[-1])
+                if len(roots) == 1 and not other and not muts:
+                    ctx.ok(rule, F, what, "the presented string is handed on unchanged", line=t.get("line"))
+                    if name not in targets:
+                        targets[name] = list(roots)[0]
+                        work.append(name)
+                elif other or muts:
+                    w = (other or muts)[0]
+                    nm = (w.kids[1] if w.kind == "mut" else w).d["term"].get("name")
+                    ctx.finding(rule, F, what, "the presented string is rewritten (%s) before it is parsed: the two serializations no longer see the same input, and a token that differs from "
+                                "the presented one is what gets verified" % nm, line=t.get("line"))
+                else:
+                    ctx.finding(rule, F, what, "the string handed to the parser does not come from this function's string parameter: %s" % vstr(arg, 3), line=t.get("line"))
+    ctx.floor(rule, "hops from the public entries to the parsers", nhop, 3)
 
 
 def f3(ctx, fx):
